@@ -163,7 +163,7 @@ func H_C16_json() {
 }
 
 var c16JSONValues = []string{
-	"1", "-0", "1.50", "1e2", "12345678901234567890123456789012345678", "0.1000000000000000055511151231257827", "true", "false", "null",
+	"1", "-0", "1.50", "1e2", "12345678901234567890123456789012345678", "9007199254740993", "-9007199254740993", "1234567890123456789", "9223372036854775807", "9223372036854775809", "18446744073709551615", "[9007199254740993]", "0.1000000000000000055511151231257827", "true", "false", "null",
 	"[]", "{}", "[1, [2, {\"a\": null}]]", "{\"a\": {\"b\": [1.0, \"x\"]}}", "\"\"", "\"a`b\"", " 1 ", "[\"`\"]", "{\"k`\": 1}",
 }
 
